@@ -2,16 +2,24 @@
     predicate [Pb] on the observed trace itself. *)
 From Coq Require Import List Bool Arith ZArith.
 Import ListNotations.
-Require Import Nib.C17.AnteFacts Nib.C17.MsgTree Nib.C17.Model Nib.C17.Spec.
+Require Import Nib.C17.AnteFacts Nib.C17.CarrierTree Nib.C17.Model Nib.C17.Spec.
 Local Open Scope Z_scope.
 
 (** the harness world: actors 0..3 are key accounts, 10 is the reflect contract (it dispatches only for
-    its owner, actor 0), 11 the gov module account; no ICA channel exists *)
+    its owner, actor 0), 11 the gov module account, 12 the policy account of a group whose members are actor 1
+    and the contract, each with a vote that passes a proposal alone (the group exists only when the linked
+    application routes x/group: otherwise [group_routed] is false and membership is never asked); no ICA channel exists *)
 Definition harness_world : world :=
   {| w_reflects := fun ctr snd => Nat.eqb ctr 10 && Nat.eqb snd 0;
      w_gov := 11%nat;
      w_ica_acct := fun _ => false;
-     w_ica_allow := fun _ => false |}.
+     w_ica_allow := fun _ => false;
+     w_group_member := fun pol m => Nat.eqb pol 12 && (Nat.eqb m 1 || Nat.eqb m 10) |}.
+
+(** during InitChain no group exists yet *)
+Definition genesis_world : world :=
+  {| w_reflects := w_reflects harness_world; w_gov := w_gov harness_world; w_ica_acct := w_ica_acct harness_world;
+     w_ica_allow := w_ica_allow harness_world; w_group_member := fun _ _ => false |}.
 
 (** what is seen of InitChain when the genesis carries gentxs: did the chain start, and the validators after it *)
 Record genobs := { g_started : bool; g_vals : list vobs; g_allmax : Z }.
@@ -19,6 +27,7 @@ Record genobs := { g_started : bool; g_vals : list vobs; g_allmax : Z }.
 Record case := {
   c_min_rate : Z;                  (* staking MinCommissionRate the chain was set up with *)
   c_cap_linked : Z;                (* ante.MAX_COMMISSION() of the linked binary *)
+  c_group_linked : bool;           (* the linked binary's msg service router has a handler for group MsgSubmitProposal *)
   c_gentxs : list tx;              (* genutil gen_txs, delivered from InitChain at height 0 *)
   c_genesis : option genobs;       (* None: a genesis without gentxs *)
   c_setup_dt : Z;                  (* seconds between genesis time and the first transaction block's predecessor *)
@@ -46,11 +55,11 @@ Definition genesis_matches (s : st) (o : genobs) : bool :=
 
 (** [c]: the code as it treats transactions in blocks; [cg]: as it treats gentxs at height 0 *)
 Definition mismatch (c cg : cfg) (k : case) : bool :=
-  negb ((cap c =? c_cap_linked k) &&
+  negb ((cap c =? c_cap_linked k) && Bool.eqb (group_routed c) (c_group_linked k) &&
         match c_genesis k with
         | None => replay c (st0 (c_min_rate k)) (c_txs k)
         | Some o =>
-            match run_genesis cg harness_world (st0 (c_min_rate k)) (c_gentxs k) with
+            match run_genesis cg genesis_world (st0 (c_min_rate k)) (c_gentxs k) with
             | None => negb (g_started o)
             | Some s =>
                 (* InitGenesis panics when no module returned a validator update: at least one validator is needed *)
